@@ -149,6 +149,9 @@ def _core(props) -> str:
             'xmlns:xsi="http://www.w3.org/2001/XMLSchema-instance">'
             + el("dc:title", "title") + el("dc:creator", "author") + el("dc:subject", "subject")
             + el("cp:keywords", "keywords") + el("dc:description", "description")
+            + el("cp:lastModifiedBy", "last_modified_by")
+            + "".join(f'<dcterms:{t} xsi:type="dcterms:W3CDTF">{escape(props[t])}</dcterms:{t}>'
+                      for t in ("created", "modified") if props.get(t) is not None)
             + "</cp:coreProperties>")
 
 
